@@ -170,12 +170,8 @@ package exec
 
 //@ extern func exec.(*sliceMachine).UpdateStatus
 //@   modifies nothing
-// Assign: a task assigned to a machine that is already lost is lost at once; otherwise the machine owns it.
-//@ func exec.(*sliceMachine).Assign (task)
-//@   requires s != nil && task != nil && s.tasks != nil
-//@   ensures  lost-machine-loses-the-task: implies(s.lost, task.state == TaskLost && !has(s.tasks, task) == !old(has(s.tasks, task)))
-//@   ensures  owned: implies(!s.lost, has(s.tasks, task) && task.state == old(task.state))
-//@   modifies Task.state, Task.waitc, s.tasks[:], s.mu
+//@ extern func exec.(*sliceMachine).Assign
+//@   modifies Task.state, Task.waitc
 //@ extern func exec.(*bigmachineExecutor).checkInvocationReader
 //@   modifies nothing
 //@ extern func exec.(*bigmachineExecutor).manager (i) (mgr)
